@@ -42,6 +42,11 @@ type Config struct {
 	MaxCallAttempts int       `json:"max_call_attempts"` // 0 = option not used
 	Throttle        *Throttle `json:"throttle,omitempty"`
 	DisableRetry    bool      `json:"disable_retry,omitempty"`
+	// StarveRetries: the scripted server advertises a 16-byte stream window and
+	// grants a large window only to the FIRST wire attempt of each call, so the
+	// replay of buffered messages on a retry attempt blocks on flow control /
+	// write quota and is still in progress when the server answers that attempt.
+	StarveRetries bool `json:"starve_retries,omitempty"`
 }
 
 // Att is what the scripted server does on one wire attempt (one HEADERS).
@@ -372,4 +377,74 @@ func ReqPayload(rid, j, n int) []byte {
 // RespPayload is response message j of wire attempt w of RPC rid.
 func RespPayload(rid, w, j int) []byte {
 	return []byte(fmt.Sprintf("resp/%d/%d/%d", rid, w, j))
+}
+
+// MustHitVariants is the size of the fixed "replay interrupted" family.
+const MustHitVariants = 40
+
+// GenReplayInterrupted builds case i of the must-hit family derived from the
+// repro of the (fixed) defect "io.EOF of a replayed SendMsg leaks out of
+// RecvMsg": retryPolicy{UNAVAILABLE}; attempt 1 gets the whole request and is
+// failed trailers-only UNAVAILABLE; the retry attempt(s) are answered right on
+// HEADERS while the buffered sends (first one > the 64 KiB write quota, stream
+// window 16 bytes) are still being replayed: trailers-only with a
+// non-retryable code / with UNAVAILABLE at maxAttempts / headers+messages+OK
+// trailers / RST_STREAM / headers+message+failure, directly or after one more
+// UNAVAILABLE on HEADERS, for client-streaming, bidi (one and two application
+// goroutines) and unary calls (unary: a single Write, so the interruption is
+// only a race there).
+func GenReplayInterrupted(rng *rand.Rand, i int) Scenario {
+	i %= MustHitVariants
+	shape, final, chain := i%4, (i/4)%5, 2+i/20
+	sc := Scenario{Cfg: Config{StarveRetries: true, Policy: &Policy{MaxAttempts: 4, InitialMs: 10, MaxMs: 10, Mult: 1, Codes: []int{int(codes.Unavailable)}}}}
+	r := RPC{BufLimit: -1, DeadlineMs: 20000}
+	switch shape {
+	case 0:
+		r.Shape = "cstream"
+	case 1:
+		r.Shape = "bidi"
+	case 2:
+		r.Shape, r.TwoG = "bidi", true
+	default:
+		r.Shape, r.UnarySize = "unary", 70000
+	}
+	nm := 0
+	if r.Shape != "unary" {
+		r.Ops = append(r.Ops, Op{K: "S", N: 66000 + rng.Intn(30000)})
+		nm = 2 + rng.Intn(2)
+		for j := 1; j < nm; j++ {
+			r.Ops = append(r.Ops, Op{K: "S", N: pick(rng, 1, 100, 3000)})
+		}
+		if r.Shape == "cstream" || rng.Intn(2) == 0 {
+			r.Ops = append(r.Ops, Op{K: "C"})
+		}
+	}
+	first := Att{Trig: "end", Act: "TO", Code: int(codes.Unavailable)}
+	if r.Shape != "unary" && r.Ops[len(r.Ops)-1].K != "C" {
+		first.Trig, first.K = "msgs", nm
+	}
+	r.Plan = append(r.Plan, first)
+	for c := 2; c < chain; c++ {
+		r.Plan = append(r.Plan, Att{Trig: "headers", Act: "TO", Code: int(codes.Unavailable)})
+	}
+	last := Att{Trig: "headers"}
+	switch final {
+	case 0:
+		last.Act, last.Code = "TO", int(codes.Internal)
+	case 1:
+		last.Act, last.Code = "TO", int(codes.Unavailable)
+		sc.Cfg.Policy.MaxAttempts = chain
+	case 2:
+		last.Act, last.NMsgs = "OK", 1
+		if r.Shape == "bidi" {
+			last.NMsgs = 1 + rng.Intn(3)
+		}
+	case 3:
+		last.Act, last.Rst = "RST", 2
+	default:
+		last.Act, last.Code = "HMT", int(codes.DataLoss)
+	}
+	r.Plan = append(r.Plan, last)
+	sc.RPCs = []RPC{r}
+	return sc
 }
